@@ -25,15 +25,22 @@ def clang_ast(tu, flt, extra_flags=(), cache_dir=None):
         raise Unsupported('clang failed on %s: %s' % (tu, p.stderr[-2000:]))
     docs = parse_docs(p.stdout)
     comps = flt.split('::')
+    placed = {}
     for d in docs:
         # the dump starts at the matching declaration: its enclosing namespaces are recovered from the filter
         nm = d.get('name')
         if nm in comps:
             i = len(comps) - 1 - comps[::-1].index(nm)
             d['__qual'] = '::'.join(comps[:i + 1])
+            if d.get('kind') == 'NamespaceDecl': placed[d['id']] = d['__qual']
+    for d in docs:
+        if '__qual' in d: continue
+        pid = d.get('parentDeclContextId')
+        if pid in placed and d.get('name'):
+            d['__qual'] = placed[pid] + '::' + d['name']     # e.g. an explicit template instantiation written outside the namespace
         else:
-            raise Unsupported('AST dump root %s %s cannot be placed under filter %s' % (d.get('kind'), nm, flt))
-    return docs, ' '.join(cmd)
+            d['__skip'] = True     # matched the filter only as a substring of something else (e.g. std::hash<tbox::...>): not part of the unit
+    return [d for d in docs if not d.get('__skip')], ' '.join(cmd)
 
 def parse_docs(txt):
     """clang prints 'Dumping <qualified name>:' before each matching declaration's JSON document"""
@@ -154,6 +161,7 @@ class Unit:
         self.func_order = []
         self.work = []
         self.lifted = []          # lifted lambdas
+        self.member_alias = {}; self.alias_names = {}
         self.tmp_counter = 0
         self._index()
 
@@ -349,6 +357,10 @@ class Unit:
             raise Unsupported('function/pointer-to-function type ' + qt)
         base = self.resolve_named(qt)
         if base is None: raise Unsupported('type ' + qt)
+        if base.startswith('handle:'):
+            # opaque record that the unit only ever holds by pointer: T* is an integer handle (never dereferenced)
+            if not suffix: raise Unsupported('opaque handle type %s used by value' % qt)
+            base = base[len('handle:'):]; suffix = suffix[1:]; const = ''
         if base.startswith('struct ') or '*' in base: const = ''     # cv on records is dropped
         return (const + base + (' ' + suffix if suffix else '') + ('*' if is_ref else '')).replace(' **', ' **'), is_ref
 
@@ -431,7 +443,17 @@ class Unit:
                     txt, _ = self.decl_text(f, f['name']); inner.append('    %s;' % txt)
                 # C11 anonymous union/struct: members are accessed directly, exactly as in C++
                 lines = [l for l in lines if not re.match(r'^  \S.* ;$', l)]
-                lines.append('  %s {\n%s\n  };' % (c.get('tagUsed', 'struct'), '\n'.join(inner)))
+                W8 = ('unsigned long', 'long', 'size_t', 'uint64_t', 'int64_t', 'v_handle_t', 'ssize_t')
+                tys = [self.decl_text(f, f['name'])[0].rsplit(' ', 1)[0] for f in self.record_fields(c)]
+                if c.get('tagUsed') == 'union' and len(tys) > 1 and all(t in W8 for t in tys):
+                    # a union of same-width integers (after opaque pointers became handles) is ONE 64-bit cell: the other member
+                    # names alias the first one.  (CBMC gives the members of a nondeterministic union inside an array
+                    # inconsistent values, measured; the aliasing is exact for equal-width integer members.)
+                    fs = self.record_fields(c)
+                    lines.append('  %s %s;' % (tys[0], fs[0]['name']))
+                    for f in fs[1:]: self.member_alias[(cn, f['name'])] = fs[0]['name']; self.alias_names[f['name']] = fs[0]['name']
+                else:
+                    lines.append('  %s {\n%s\n  };' % (c.get('tagUsed', 'struct'), '\n'.join(inner)))
         if not lines: lines.append('  char __empty;')
         extra = self.spec.get(('ghost_fields', cn))
         if extra: lines.append(extra)
@@ -613,6 +635,10 @@ class Unit:
     def e_FloatingLiteral(self, n): return n['value']
     def e_CXXBoolLiteralExpr(self, n): return '1' if n['value'] else '0'
     def e_CXXNullPtrLiteralExpr(self, n): return '((void*)0)'
+    def null_of(self, n):
+        try: ct = self.ctype_node(n)[0]
+        except Unsupported: return '((void*)0)'
+        return '((void*)0)' if ct.strip().endswith('*') else '((%s)0)' % ct
     def e_GNUNullExpr(self, n): return '((void*)0)'
     def e_CXXThisExpr(self, n): return 'self'
     def e_ImplicitValueInitExpr(self, n): return '0'
@@ -688,7 +714,7 @@ class Unit:
                 r = self.models.member_access(self, n, b)
                 if r is not None: return r
             raise Unsupported('member %s of a type outside the unit (in %s)' % (n.get('name'), self.cur))
-        return '%s%s%s' % (b, '->' if n.get('isArrow') else '.', n['name'])
+        return '%s%s%s' % (b, '->' if n.get('isArrow') else '.', self.alias_names.get(n['name'], n['name']))
 
     def cast_to(self, n, inner):
         ct, _ = self.ctype_node(n)
@@ -698,7 +724,10 @@ class Unit:
         ck = n.get('castKind'); sub = self.kids(n)[0]
         if ck in ('LValueToRValue', 'NoOp', 'ArrayToPointerDecay', 'FunctionToPointerDecay', 'ConstructorConversion', 'UserDefinedConversion'):
             return self.expr(sub)
-        if ck == 'NullToPointer': return '((void*)0)'
+        if ck == 'NullToPointer':
+            try: ct = self.ctype_node(n)[0]
+            except Unsupported: ct = 'void *'
+            return '((void*)0)' if ct.strip().endswith('*') else '((%s)0)' % ct
         if ck in ('IntegralCast', 'IntegralToBoolean', 'PointerToBoolean', 'IntegralToPointer', 'PointerToIntegral', 'BitCast', 'IntegralToFloating', 'FloatingToIntegral', 'FloatingCast', 'BooleanToSignedIntegral', 'FloatingToBoolean'):
             v = self.const_int(n)
             if v is not None and self.is_intlike(n): return self.int_lit(v, self.type_of(n)) if ck != 'BitCast' else self.cast_to(n, self.expr(sub))
@@ -1387,6 +1416,9 @@ class Unit:
                 init = '{' + ', '.join(self.expr(x) for x in self.kids(self.strip_tmp(ks[0]))) + '}'
             else: init = self.expr(ks[0])
             self.flush_expr_stmt('%s = %s;' % (txt, init), p)
+            if self.stmt_may_throw:
+                self.stmt_may_throw = False
+                self.w(p + 'if (__exc != 0)'); self.w(p + '{'); self.emit_exc_exit(p + '  '); self.w(p + '}')
         else:
             self.w(p + '%s;' % txt)
 
@@ -1424,9 +1456,21 @@ class Unit:
                 for i, x in enumerate(self.kids(se)): body.append('self->%s[%d] = %s;' % (fname, i, self.expr(x)))
             else:
                 body.append('self->%s = %s;' % (fname, self.expr(e)))
+        anon_defaults = {}
+        for c in rec.get('inner', []):
+            # default member initialisers inside an anonymous union/struct (at most one member of a union has one)
+            if c.get('kind') in REC_KINDS and not c.get('name'):
+                for f in self.record_fields(c):
+                    ks = self.kids(f)
+                    if ks and f.get('name'): anon_defaults[f['name']] = ks[0]
         for iname, e in inits.items():
             if iname not in direct:     # member of an anonymous union/struct (IndirectFieldDecl)
+                if e['kind'] == 'CXXDefaultInitExpr' and not self.kids(e):
+                    if iname not in anon_defaults: continue
+                    e = anon_defaults[iname]
                 body.append('self->%s = %s;' % (iname, self.expr(e)))
+        for iname, e in anon_defaults.items():
+            if iname not in inits: body.append('self->%s = %s;' % (iname, self.expr(e)))
         return body
 
     def emit_func(self, cid):
@@ -1550,6 +1594,8 @@ class Unit:
         parts = []
         if self.models: parts.append(self.models.prelude(self))
         parts.append('static int __exc;')
+        early = self.spec.get(('prelude_early',))
+        if early: parts.append(early)
         # enums first, then records in dependency (emission) order
         for cn in self.type_order:
             if cn.startswith('enum_'): parts.append(self.emitted_types[cn])
